@@ -57,7 +57,8 @@ def cases(ctx: Ctx, res: Result):
         for j, s in enumerate(ss):
             res.count(f'exhaustive_k{k}')
             # the timestamps the events carry: arrival order, sources with skewed clocks (not monotone, ties), all equal
-            yield Case([('ph', [pat])], 0, ev_ops(s, clock=('arrival', 'skewed', 'arrival', 'same')[(i + j) % 4]), 'exh')
+            yield Case([('ph', [pat])], 0, ev_ops(s, kind=('s', 's', 'mixed')[(i + 2 * j) % 3],
+                                                  clock=('arrival', 'skewed', 'arrival', 'same')[(i + j) % 4]), 'exh')
     # seeded random: longer patterns, several patterns/phenomena, history-dependent predicates
     for _ in range(1500 if ctx.thorough else 250):
         phens = gp.random_phens(ctx.rng)
@@ -69,6 +70,7 @@ def cases(ctx: Ctx, res: Result):
         res.count('random')
         res.count('shape:' + gp.shape_key(phens)[:40])
         yield Case(phens, ctx.rng.choice((0, 0, 3)), ev_ops(gp.random_stream(ctx.rng, ctx.rng.randint(5, 30)),
+                                                            kind=ctx.rng.choice(('s', 'mixed')),
                                                             clock=ctx.rng.choice(('arrival', 'skewed', 'skewed', 'same'))), 'rnd')
 
 
